@@ -134,6 +134,7 @@ type ScriptConfig struct {
 	PValue     float64
 	PNoNew     float64
 	PNoAlias   float64
+	PDocRef    float64 // render the documentation of a type of a (possibly different) package of the closure
 }
 
 // DrawScriptConfig draws one.
@@ -154,6 +155,7 @@ func DrawScriptConfig(r *Rng) ScriptConfig {
 		PStateful: onoff(0.5, 0.3),
 		PNoNew:    onoff(0.6, 0.5),
 		PNoAlias:  onoff(0.4, 0.4),
+		PDocRef:   onoff(0.4, 0.25),
 	}
 }
 
@@ -202,6 +204,21 @@ func drawParts(r *Rng, cfg ScriptConfig, m *ModuleSpec, pi int, td TypeDecl, gen
 			ref = m.ImportPath(j) + "." + m.Pkgs[j].Anchor
 		}
 		parts = append(parts, proto.Part{Text: text}, proto.Part{Ref: ref}, proto.Part{Text: "\n"})
+	}
+	if r.P(cfg.PDocRef) {
+		// documentation of a documented type of this or of an imported package
+		var cands []string
+		for _, c := range m.Closure([]int{pi}) {
+			for _, t := range m.Pkgs[c].TypeDecls() {
+				ref := m.ImportPath(c) + "." + t.Name
+				if len(m.DocLinesOf(ref)) > 0 {
+					cands = append(cands, ref)
+				}
+			}
+		}
+		if len(cands) > 0 {
+			parts = append(parts, proto.Part{DocRef: Pick(r, cands)}, proto.Part{Text: fmt.Sprintf("func AfterDoc_%s_%s() {}\n", sanitize(gen), td.Name)})
+		}
 	}
 	if r.P(cfg.PValue) {
 		u := fmt.Sprintf("%s_%s_v", sanitize(gen), td.Name)
